@@ -25,11 +25,12 @@ Do not edit existing tests. Do not change the hooks. Keep the change minimal (a 
 When done, leave the worktree with BOTH the source change and the demo file present (uncommitted), and reply with: (a) the unified diff of the source change only (git diff -- . ':!*seeded_demo*'), (b) the path of the demo file and the exact command to run it, (c) what is needed for the violation to manifest, (d) confirmation of the results of the existing suite with the change and of the demo with/without the change. If after serious effort you cannot find such a change that passes the existing tests, say so and describe what you tried.'''
 EXTRA = {
  'b': "\n\nPlease prefer a change in a DIFFERENT part of the mechanism than the most obvious one (e.g. not the first condition one would think of), so that it complements another seeded defect that targets the obvious site.",
+ 'd': "\n\nPlease make the violation depend on the INTERPLAY of two features or two processes (for example retries with a stop request, repeating steps with a limit, handlers with a timeout, two commands issued at the same moment, a crash followed by another operation), in code that looks as if it had been touched recently (comments explaining a protocol, locks, flags that several functions share).",
  'c': "\n\nPlease target a clause of the property that is easy to overlook (the last sentence, a side condition, an 'even when ...' part) rather than its headline.",
 }
 os.makedirs('/tmp/seed/prompts', exist_ok=True)
 for pid, p in props.items():
-    for suf in 'abc':
+    for suf in 'abcd':
         t = TMPL.format(wt='/tmp/seed/%s-%s' % (pid, suf), pid=pid, title=p['title'], statement=p['statement'], quant=p['quantifier']['text'], files=', '.join(p['anchors']['files']))
         open('/tmp/seed/prompts/%s-%s.txt' % (pid, suf), 'w').write(t + EXTRA.get(suf, ''))
 print("prompts written")
